@@ -158,6 +158,9 @@ class Walk:
             self.legal(th, "OHr")
         if th.flushing:
             self.legal(th, "OF]")
+        if unwind and th.state == R.ST_COOLING:
+            if self.legal(th, "OHp"):
+                self.legal(th, "OHr")
         if unwind and th.state == R.ST_RUNNING:
             self.unwind(th)
         self.legal(th, "OHe")
